@@ -24,6 +24,9 @@ const ATTRS: &[&str] = &[
     r#"_="c""#,
     r#"__="raw""#,
     r#"class="d-red a""#,
+    r#"class="b  a b""#,
+    r#"a="x&#10;y&#9;z""#,
+    r#"b="&#x20; s &#32;""#,
     r#"id="a""#,
     r##"xlink:href="#a""##,
     r#"xml:space="preserve""#,
@@ -404,7 +407,7 @@ pub fn run(tier: Tier) -> i32 {
     rep.sample(json!({"leg": "nested", "sub": subs[subs.len() / 2], "positions": 5}));
     rep.absorb("nested", st);
     rep.set("configurations", json!(cfgs.iter().map(|c| c.0.clone()).collect::<Vec<_>>()));
-    rep.assume("no DTD processing: only predefined entities and character references occur; literal white space in attribute values is normalised by the reader on both sides (XML 3.3.3), so character references to tab/newline in attribute values are outside the alphabet");
+    rep.assume("no DTD processing: only predefined entities and character references occur; literal white space in attribute values is normalised by the reader on both sides (XML 3.3.3); character references to tab/newline are in the alphabet and must survive");
     rep.finish()
 }
 
